@@ -13,6 +13,7 @@ from . import tacdlib as T
 
 LEVEL = 'fault_enumeration'
 CATALOGUE = ['connect_close', 'garbage', 'http', 'tls_no_alpn', 'tls_foreign_alpn', 'hello_abandon', 'stall']
+# plus 'slow<seconds>': connections kept open and silent for that long (added to a few histories, see gen_histories)
 
 
 def one_history(h):
@@ -26,12 +27,20 @@ def one_history(h):
                 err = t.stderr_text()
                 res['infra'] = 'tacd did not start: %s' % err[-300:]
                 return res
-            steps = [{'do': b, 'count': 50, 'hold_ms': 120} for b in h['seq']]
+            steps = []
+            for b in h['seq']:
+                if b.startswith('slow'):
+                    # a few connections that stay open and silent (or stuck mid-record) for several seconds
+                    steps.append({'do': 'stall', 'count': 4, 'hold_ms': int(float(b[4:] or 6.5) * 1000), 'valid_meanwhile': True})
+                else:
+                    steps.append({'do': b, 'count': 50, 'hold_ms': 120})
             steps.append({'do': 'valid', 'connect_tries': 3})
             out = C.vtool('alpnclient', [{'target': listen, 'sni': h['want_name'], 'steps': steps, 'seed': h['i'] + 1,
                                           'pause_ms': 15}])
             st = out[0]['steps']
             res['executed'] = [s.get('do') for s in st[:-1] if s.get('connected')]
+            if any(b.startswith('slow') for b in h['seq']):
+                res['slow'] = True
             # the stalled-connections behaviour embeds a valid handshake made while the others hang
             for s in st[:-1]:
                 if s.get('do') == 'stall' and s.get('connected') and s.get('meanwhile') is not None:
@@ -68,6 +77,11 @@ def gen_histories(tier):
     else:
         seqs += longer
         exhaustive = True
+    # slow clients: longer than any plausible per-connection timeout a responder might use (3 s, 5 s, 10 s, 30 s)
+    slow = [('slow6.5',), ('slow6.5', 'http'), ('garbage', 'slow6.5'), ('slow6.5', 'slow6.5')]
+    if tier != 'quick':
+        slow += [('slow12',), ('tls_foreign_alpn', 'slow12'), ('slow35',), ('slow35', 'connect_close')]
+    seqs += slow
     proofs = T.daemon_proofs(8, C.seed())
     hs = []
     for i, s in enumerate(seqs):
@@ -100,6 +114,8 @@ def run(tier):
         chk.evaluations += 1
         chk.count('hostile_connections_played', len(res['executed']))
         chk.count('histories_len_%d' % len(h['seq']))
+        if res.get('slow'):
+            chk.count('histories_with_slow_clients')
         if len(res['executed']) == len(h['seq']) or res['problems']:
             chk.distinct.add((tuple(h['seq']), h['listener']))
         if res['problems']:
